@@ -2,9 +2,12 @@
 # Re-runs every seeded change (seeded/*/patch.diff) and every fix: revert against the quick checks.
 # Prints one line per case: DETECTED / MISSED / TROUBLE. Used after generator changes to make sure
 # earlier detections were not lost. Never touches /repo's working tree (scratch worktrees only).
+# PROPS="C09 C10" restricts the sweep to those properties (after a change to their generators only).
 cd /verif
+want() { [ -z "${PROPS:-}" ] || echo " $PROPS " | grep -q " $1 "; }
 for d in seeded/*/; do
   id=$(basename $d); prop=$(python3 -c "import json;print(json.load(open('$d/meta.json'))['property'])")
+  want $prop || continue
   out=$(tools/seed_eval.sh $d/patch.diff $prop 2>&1)
   if echo "$out" | grep -q "^VIOLATION"; then echo "DETECTED $id $prop $(echo "$out" | grep -c '^VIOLATION') signature(s)";
   elif echo "$out" | grep -q "PATCH-DOES-NOT-APPLY\|BUILD-FAILS\|did not finish\|BUILD-TROUBLE"; then echo "TROUBLE  $id $prop"; echo "$out" | tail -3;
@@ -14,6 +17,7 @@ done
 # later commits that touch the same lines; the pattern makes sure it is THIS fix's defect that is reported again)
 while read c prop pat; do
   [ -z "$c" ] && continue
+  want $prop || continue
   out=$(tools/revert_eval.sh $c $prop 2>&1)
   if echo "$out" | grep "signature:" | grep -q -- "$pat"; then echo "DETECTED revert-$c $prop ($pat)"; else echo "MISSED   revert-$c $prop ($pat)"; echo "$out" | tail -3; fi
 done <<'LIST'
